@@ -13,6 +13,16 @@ var realWire = []string{"protocol/binary (Reader, StreamReader, StreamWriter, Wr
 var stubWire = []string{"caller-supplied io.Reader / io.Seeker / io.ReaderAt / io.Writer -> simio (delivery schedule and faults are choices; stays inside the io contracts)", "sync.Pool -> simulated pool (reuse order, drops and New calls are choices; double-Put and write-after-Put detectors)", "Go map iteration order -> seeded permutation", "peer process -> simulator task over a simulated pipe (client/server runs)"}
 
 var specs = map[string]Spec{
+	"C12": {
+		Prop: "C12", Engine: "wire-world", Level: "exploration", Binary: "root",
+		Quick:    Tier{Count: 160000, BudgetS: 40},
+		Thorough: Tier{Count: 16000000, BudgetS: 900},
+		Rule: "four run kinds drawn from the seed: (roundtrip) envelope (name 1..65536 bytes incl. non-UTF-8 and Service:method, type 0..127, seqid at int32 boundaries, arbitrary struct body) encoded by EncodeEnveloped / WriteLegacyEnveloped / the streaming writers and compared byte for byte with the harness encoder, then decoded by DecodeEnveloped or the streaming reader under a seeded delivery schedule with optional truncation / I/O error; (clientserver) request in one of three framings served through DecodeRequest or ReadRequest over a simulated reader, reply written through the returned responder and decoded by the harness as a client of that framing, incl. requests of the wrong message type; (pipe) the same with a client task writing the request in seeded chunks into a simulated pipe while a server task runs ReadRequest on the live pipe and replies over a second pipe; (agreement) arbitrary bytes (valid, 1-3 mutations, random) through DecodeRequest and through ReadRequest under 4 (thorough 8) seeded delivery/fault schedules. " +
+			"Every run is non-trivial; distinct = distinct choice lists.",
+		RealComp: realWire, StubComp: stubWire,
+		Assume: []string{"legacy envelope names stay below 2^24 bytes (implied by the first-byte classification)", "a stream that ends early is compared with full delivery of that shorter input, because the framing rules depend on the input's length",
+			"an injected I/O error within the first two bytes (the framing peek) may be reported or not; nothing is demanded there"},
+	},
 	"C03": {
 		Prop: "C03", Engine: "wire-world", Level: "exploration", Binary: "root",
 		Quick:    Tier{Count: 400000, BudgetS: 40},
